@@ -39,6 +39,17 @@ def _build(c, dst):
     else:
         xx = wrap_xr(arr, gb, **kw)
     cy, cx = (c["chunks"][0] or (c["tb"][0][0] if "tb" in c else c["blocks"][0])), (c["chunks"][1] or (c["tb"][0][1] if "tb" in c else c["blocks"][0]))
+    if c.get("irr"):
+        if c["irr"] == "tile":
+            cy = cx = c["blocks"][0]
+
+        def irregular(n, cs):
+            head = max(1, cs // 4)
+            if head >= n:
+                return (n,)
+            rest = n - head
+            return (head,) + (cs,) * (rest // cs) + ((rest % cs,) if rest % cs else ())
+        cy, cx = irregular(h, cy), irregular(w, cx)
     ch = {xx.odc.spatial_dims[0]: cy, xx.odc.spatial_dims[1]: cx}
     if c.get("schunk") and c["axis"] != "YX":
         ch[[d for d in xx.dims if d not in xx.odc.spatial_dims][0]] = c["schunk"]
@@ -159,6 +170,10 @@ def execute(job):
     td = tempfile.mkdtemp(prefix="vh_cog_")
     try:
         dst = os.path.join(td, "out.tif")
+        if (c["h"] + c["w"] + len(c["blocks"])) % 3 == 0:
+            # history: the destination already holds the (longer) result of an earlier save - it is replaced, not appended to
+            with open(dst, "wb") as f:
+                f.write(b"II*\x00" + bytes(range(256)) * 2000)
         d, data, gb, nodata = _build(c, dst)
         if order is None:
             d.compute(scheduler="synchronous")
